@@ -161,7 +161,7 @@ def build_common(wd, name, c_files, defs=()):
 
 
 def compile_harness(wd, name, src_text, lib_objs, extra_srcs=(), defs=(), replace_calls=(),
-                    remove_bodies=()):
+                    remove_bodies=(), isr=None):
     c = os.path.join(wd, name + ".c")
     with open(c, "w") as f:
         f.write(src_text)
@@ -178,6 +178,11 @@ def compile_harness(wd, name, src_text, lib_objs, extra_srcs=(), defs=(), replac
             cmd += ["--remove-function-body", a]
         cmd += [gb, gb2]
         must(cmd)
+        os.replace(gb2, gb)
+    if isr:
+        # interrupt instrumentation: a call of `isr` before every access to the objects it touches
+        gb2 = os.path.join(wd, name + ".isr.gb")
+        must(["goto-instrument", "--isr", isr, gb, gb2])
         os.replace(gb2, gb)
     return gb
 
@@ -302,6 +307,36 @@ def run_cbmc(gb, unwind=None, unwindset=None, flags=(), timeout=300, trace=False
         if not v.messages:
             v.messages = out[-1500:] + err[-1500:]
     return v
+
+
+def run_cbmc_hunt(gb, unwind, unwindset, checks="default", flags=(), timeout=120, malloc_may_fail=False):
+    """Bug-hunting pass: path-wise symbolic execution, stop at the first failing
+    property, no unwinding assertions.  Returns (property, description, inputs)
+    for a failure found, else None.  A None proves nothing."""
+    cmd = ["cbmc", gb, "--paths", "lifo", "--stop-on-fail", "--trace", "--json-ui", "--drop-unused-functions",
+           "--no-unwinding-assertions", "--sat-solver", "cadical"]
+    if not malloc_may_fail:
+        cmd.append("--no-malloc-may-fail")
+    if checks == "none":
+        cmd.append("--no-standard-checks")
+    elif checks == "full":
+        cmd += ["--signed-overflow-check", "--undefined-shift-check", "--div-by-zero-check"]
+    if unwindset:
+        cmd += ["--unwindset", ",".join("%s:%d" % kv for kv in sorted(unwindset.items()))]
+    if unwind:
+        cmd += ["--unwind", str(unwind)]
+    cmd += list(flags)
+    rc, out, err, wall, to = run(cmd, timeout=timeout)
+    if to:
+        return None
+    try:
+        doc = json.loads(out)
+    except Exception:
+        return None
+    for item in doc:
+        if isinstance(item, dict) and item.get("status") == "failed" and "trace" in item:
+            return item.get("property"), item.get("description", ""), _trace_inputs(item["trace"])
+    return None
 
 
 # ---------------------------------------------------------------------------
